@@ -63,6 +63,7 @@ type Rec struct {
 	nontriv   int64
 	skipped   int64
 	hashes    map[uint64]struct{}
+	hslice    []uint64 // overflow of hashes beyond 1<<20 entries (deduplicated by the driver)
 	classes   map[string]int64
 	samples   []json.RawMessage
 	notes     map[string]string
@@ -145,6 +146,10 @@ func (r *Rec) Record(c interface{}, o *Obs) {
 	if h == 0 {
 		js, _ = json.Marshal(c)
 		h = Hash64(js)
+	}
+	if len(r.hashes) >= 1<<20 {
+		r.hslice = append(r.hslice, h)
+		return
 	}
 	_, dup := r.hashes[h]
 	r.hashes[h] = struct{}{}
@@ -257,9 +262,13 @@ func (r *Rec) Flush() {
 		"exhaustive":  ex,
 	}
 	js, _ := json.Marshal(out)
-	buf := make([]byte, 0, 8*len(r.hashes))
+	buf := make([]byte, 0, 8*(len(r.hashes)+len(r.hslice)))
 	var tmp [8]byte
 	for h := range r.hashes {
+		binary.LittleEndian.PutUint64(tmp[:], h)
+		buf = append(buf, tmp[:]...)
+	}
+	for _, h := range r.hslice {
 		binary.LittleEndian.PutUint64(tmp[:], h)
 		buf = append(buf, tmp[:]...)
 	}
